@@ -42,7 +42,8 @@ type emitter struct {
 	addr  vaa.Address
 }
 
-var emitters = []emitter{{2, addrA}, {4, addrA}, {2, addrB}}
+// the fourth emitter is the zero value of a filter: chain 0, all-zero address (no subscriber asks for it)
+var emitters = []emitter{{2, addrA}, {4, addrA}, {2, addrB}, {0, vaa.Address{}}}
 
 func vaaBytes(e emitter, seq uint64) []byte {
 	v := &vaa.VAA{Version: 1, Timestamp: time.Unix(1700000000, 0), Sequence: seq, EmitterChain: e.chain, EmitterAddress: e.addr, TargetChain: 255, Payload: []byte{byte(seq), 1}}
@@ -508,7 +509,7 @@ func configs() []config {
 		return c
 	}
 	return []config{
-		mk("filters-2subs", 2, []int{0, 1, 2, 4, 5, 6, 7}, []int{0, 1, 2}, false),
+		mk("filters-2subs", 2, []int{0, 1, 2, 4, 5, 6, 7}, []int{0, 1, 2, 3}, false),
 		mk("unsupported-filters-2subs", 2, []int{0, 1, 8, 9}, []int{0, 1}, false),
 		mk("filters-3subs", 3, []int{0, 1, 4}, []int{0, 1}, false),
 		mk("stall-2subs", 2, []int{0, 1, 3}, []int{0, 2}, true),
